@@ -10,7 +10,7 @@ CLAIM = {
             'only with a precision clamped to the table, and the table is 10^i; every rounding increment of the scaled fraction is followed by '
             'the carry test on every path to the digit loop (sibling agreement of the two rounding branches); the float parser accepts the '
             'characters the float renderer stores.',
-    'note': 'The floating-point clauses (correct rounding at precision p, half-ulp parse accuracy) are NOT decided: no sound static '
+    'note': 'The floating-point clauses (correct rounding at precision p, half-ulp parse accuracy) are R08.8 the length itoa returns is taken after its last character store. R08.9 pow10_ is a table of double (the carry test compares a 32-bit fraction with it). NOT decided: no sound static '
             'argument over double arithmetic is in reach here. Trusted: clang CFG and constant folding, extractor.',
     'technique': 'renderer/parser alphabet agreement, index interval from dominating guards, literal table checks, must-pass-through under finite valuations (sibling rounding branches)',
 }
@@ -252,6 +252,14 @@ def run(ctx):
         vals.append(s.value if s.value is not None else s.r.get('fv'))
     ctx.check(len(vals) >= 10 and all(v is not None and float(v) == 10.0 ** i for i, v in enumerate(vals)), 'R08.3', 'pow10_#values', tab[0].file.split('/')[-1] + ':%d' % tab[0].line,
               'pow10_[i] = 10^i for i = 0..%d' % (len(vals) - 1))
+    # R08.9 the carry test compares the 32-bit scaled fraction with a table entry: the entries must be able to hold every uint32 exactly (double has 53
+    # mantissa bits, float 24: with a float table 99999996..99999999 all compare equal to 1e8 and the carry fires for fractions that did not roll over)
+    tt = tab[0].tu.types[tab[0].raw['t']]
+    et = tab[0].tu.types[tt['elem']] if 'elem' in tt else {}
+    ctx.check(et.get('k') == 'float' and et.get('bits', 0) >= 64, 'R08.9', 'pow10_#element-type', tab[0].file.split('/')[-1] + ':%d' % tab[0].line,
+              'pow10_ holds doubles (every 32-bit fraction converts exactly for the carry test)',
+              'pow10_ holds `%s` (%s bits): the carry test `frac >= pow10_[prec]` converts the 32-bit fraction to it and 99999996..99999999 round to 1e8 — at precision 8/9 '
+              'a fraction just below the next whole number is rendered as the next whole number (0.999999976 -> "1.0")' % (et.get('c'), et.get('bits')))
     prec = md.param_ids[2]
     mcfg = md.cfg
     assigns = [(n, val) for (n, kind, val) in q.local_defs(md, prec) if kind == 'assign']
@@ -282,6 +290,48 @@ def run(ctx):
                   'pow10_[prec]: prec is either a clamp constant or an unmodified argument proven in [%s, %s] ⊆ [0, %d]' % (lo, hi, len(vals) - 1),
                   'pow10_[prec] can be reached with prec outside [0, %d] (unclamped range [%s, %s])' % (len(vals) - 1, lo, hi))
     float_rules(ctx, prog, md, prec, uses)
+    # ---------------- R08.8 the length itoa returns counts every character it stored (BaseField::encode advances its cursor by it and writes the
+    # separator there): the value is strlen(result) taken after the terminator, or `cursor - result` sampled at a point after which no further
+    # character is stored through the advancing cursor (`*ptr++ = c`)
+    n_len = 0
+    for fi in [f for f in prog.fns('FIX8::itoa') if f.tmpl in ('inst', 'spec')][:4]:
+        icfg = fi.cfg
+        res = fi.param_ids[1]
+        adv_stores = [n for n in fi.all_nodes() if n.k == 'BinaryOperator' and n.op == '=' and icfg.has_vertex(n) and n.children[0].strip().k == 'UnaryOperator' and
+                      n.children[0].strip().op == '*' and n.children[0].strip().children[0].strip().k == 'UnaryOperator' and n.children[0].strip().children[0].strip().op == '++']
+        for (v_, kind_, rn) in icfg.exits():
+            if kind_ != 'return' or not rn.children:
+                continue
+            e_ = rn.children[0].strip(casts=True)
+            if e_.value == 0:
+                continue                # the invalid-base exit: nothing stored
+            n_len += 1
+            sample, how = None, None
+            if e_.is_call and e_.callee is not None and e_.callee.get('n') == 'strlen' and e_.args and q.refers_to_decl(e_.args[0], res):
+                sample, how = rn, 'strlen(result)'
+            else:
+                src = e_
+                if e_.k == 'DeclRefExpr' and e_.decl is not None and e_.decl.get('sc') == 'local':
+                    ds = q.local_defs(fi, e_.declid)
+                    if len(ds) == 1 and ds[0][2] is not None:
+                        src, sample = ds[0][2], ds[0][0]
+                lf_ = q.linear(src, sym=lambda x: 'RES' if q.refers_to_decl(x, res) else 'CUR' if (x.strip(casts=True).k == 'DeclRefExpr' and x.strip(casts=True).decl.get('sc') == 'local') else x.text())
+                if lf_.t == {'CUR': 1, 'RES': -1} and lf_.c in (0, 1):
+                    sample = sample or rn
+                    how = '`%s`' % src.text()
+            if sample is None or not icfg.has_vertex(sample):
+                raise AnalysisBroken('%s: returned length `%s` not understood' % (fi.q, e_.text()))
+            # only stores through the cursor the length is measured with add to it (the in-place reversal moves characters through a second cursor)
+            curs = {x.declid for x in (src if how != 'strlen(result)' else e_).walk() if x.k == 'DeclRefExpr' and x.decl is not None and x.decl.get('sc') == 'local'} if how != 'strlen(result)' else set()
+            later = [st_ for st_ in adv_stores if icfg.vertex_of(st_) in icfg.reach_from(icfg.vertex_of(sample)) and
+                     any(x.k == 'DeclRefExpr' and x.declid in curs for x in st_.children[0].walk())] if how != 'strlen(result)' else []
+            ctx.check(not later, 'R08.8', fi.q + '#length-counts-every-character', rn.loc,
+                      'the returned length (%s) is taken after the last character store' % how,
+                      'the returned length %s is sampled before `%s` can still store a character: for a negative value the sign is not counted, the caller writes its '
+                      'separator over the last digit (-123 goes out as -12)' % (how, later[0].text() if later else ''))
+    ctx.need(n_len >= 2, 'fewer than 2 itoa length returns analysed (%d)' % n_len)
+    ctx.floor('R08.8', 2)
+    ctx.floor('R08.9', 1)
     ctx.floor('R08.2', 4)
     ctx.floor('R08.3', 2)
     ctx.floor('R08.4', 2)
